@@ -255,7 +255,7 @@ Definition action_msgs (r:rnode) (i:Z) (a:gf_action) : list msg :=
     (if (sel =? 0) || (sel =? 255) then [pgn_list_msg_tp r i dst 0 def_transmit_messages (d_tx (get_dev (rn r) i)) tp] else [])
     ++ (if (sel =? 1) || (sel =? 255) then [pgn_list_msg_tp r i dst 1 def_receive_messages (x_rx (get_devx r i)) tp] else [])
   | GaProd dst tp => [{| m_pri := 6; m_pgn := 126996; m_src := dev_src r i; m_dst := dst; m_data := c_prodinfo (r_cfg r); m_tp := tp |}]
-  | GaConf dst tp => [{| m_pri := 6; m_pgn := 126998; m_src := dev_src r i; m_dst := dst; m_data := c_confinfo (r_cfg r); m_tp := tp |}]
+  | GaConf dst tp => [config_info_msg r i dst tp]      (* PGN 126998; the "not available" ISO acknowledgement when nothing is configured *)
   | GaHeartbeat _ _ => [heartbeat_msg (dev_src r i) (ss_period (x_hb (get_devx r i))) 255]
   end.
 
@@ -405,11 +405,11 @@ Definition gf_commands_take_effect_stmt : Prop :=
      respond_iso_request r q addressed 60928 i =
        (let '(n', ev, _) := send_msg (rn r) (claim_msg (get_dev (rn r) i) 255) i in (with_rn r n', ev)) /\
      m_data (claim_msg (get_dev (rn r) i) 255) = le_bytes 8 (d_name (get_dev (rn r) i))) /\
-  (forall r q addressed i, 0 <= i < dev_count (rn r) -> claim_started (rn r) i = (rn r, false) ->
+  (forall r q addressed i, 0 <= i < dev_count (rn r) -> claim_started (rn r) i = (rn r, false) -> c_confinfo (r_cfg r) <> [] ->
      respond_iso_request r q addressed 126998 i = send_config_info r i /\
      (forall r1 ev ok, rsend r {| m_pri := 6; m_pgn := 126998; m_src := dev_src r i; m_dst := 255; m_data := c_confinfo (r_cfg r); m_tp := false |} i = (r1, ev, ok) ->
         snd (send_config_info r i) = ev)).
-(* an ASCII description is readable in the payload as [length+2; 1; text] *)
+(* an ASCII description is readable in the payload as [length+2; 1; text] (in particular the payload is not empty, the side condition above) *)
 Definition conf_payload_ascii_stmt : Prop :=
   forall s1 s2 s3, Forall (fun b => 0 < b < 128) (s1 ++ s2 ++ s3) -> (length s1 <= 70)%nat -> (length s2 <= 70)%nat -> (length s3 <= 70)%nat ->
      conf_payload s1 s2 s3 = [len s1 + 2; 1] ++ s1 ++ [len s2 + 2; 1] ++ s2 ++ [len s3 + 2; 1] ++ s3.
